@@ -1019,3 +1019,23 @@ package vegeta
 //@   pragma obligations contract
 //@   pragma frame off
 //@   forbid [h2c-keeps-the-installed-dial-function] call (*net.Dialer).DialContext
+
+// Results as a report: Add appends a copy, the sort order is the timestamp order.
+//@ func (*Results).Add
+//@   property C05
+//@   requires [non-nil] rs != nil && r != nil
+//@   modifies *rs, (*rs)[cap]
+//@   ensures [appended-copy] len(*rs) == old(len(*rs)) + 1 && (*rs)[len(*rs)-1].Seq == r.Seq && (*rs)[len(*rs)-1].Timestamp == r.Timestamp
+//@ func (Results).Len
+//@   property C05
+//@   ensures result == len(rs)
+//@ func (Results).Less
+//@   property C05
+//@   requires [in-range] 0 <= i && i < len(rs) && 0 <= j && j < len(rs)
+//@   modifies nothing
+//@   ensures [orders-by-timestamp] result == (rs[i].Timestamp < rs[j].Timestamp)
+//@ func (Results).Swap
+//@   property C05
+//@   requires [in-range] 0 <= i && i < len(rs) && 0 <= j && j < len(rs)
+//@   modifies rs[*]
+//@   ensures [exchanges-two-results] rs[i].Seq == old(rs[j].Seq) && rs[j].Seq == old(rs[i].Seq) && rs[i].Timestamp == old(rs[j].Timestamp) && rs[j].Timestamp == old(rs[i].Timestamp)
